@@ -168,13 +168,19 @@ def remove(case, ctx):
     marg = modes[0] if (len(modes) == 1 and case["scalar_mode"]) else gen.as_container(modes, sum(modes) + int(mask.shape[1]), array_like=True)[0]
     opd = gen.relayout(opd, ["C", "F", "strided", "transposed_view"][len(modes) % 4])
     mask = gen.relayout(mask, ["C", "F", "reversed"][mask.shape[1] % 3])
-    opd0 = opd.copy()
+    # (the OPD map as a plain array, a MaskedArray with flagged samples - data intact - or an ndarray subclass)
+    opd, acls = gen.array_class(opd, int(mask.shape[0]) + 3 * int(mask.shape[1]) + len(modes))
+    ctx.tag("opd_class:" + acls)
+    if acls != "ndarray":
+        opd = np.ma.MaskedArray(np.asarray(opd), mask=np.ma.getmaskarray(opd)) if acls.startswith("masked") else opd
+    opd0 = np.array(np.ma.getdata(opd), copy=True)
     with lentil_call("C12.remove", f"zernike_remove(modes={marg})"):
         res = np.asarray(lentil.zernike_remove(opd, mask, marg, **kw), dtype=float)
     if res.shape != mask.shape:
         raise Violation("C12.remove.shape", f"residual shape {res.shape}")
-    if not np.array_equal(opd, opd0):
+    if not np.array_equal(np.ma.getdata(opd), opd0):
         raise Violation("C12.remove.input_mutated", "zernike_remove modified its input")
+    opd = np.asarray(np.ma.getdata(opd))
     out = mask == 0
     if np.max(np.abs(res[out] - opd[out]), initial=0.0) > 1e-12 * scale:
         raise Violation("C12.remove.outside", "samples outside the mask were changed")
